@@ -480,6 +480,10 @@ pub trait Sut: Clone {
     fn uid(&self) -> usize {
         0
     }
+    /// the configuration as the public getters report it (must never change, in particular not by clear())
+    fn config(&self) -> Value {
+        Value::Null
+    }
     /// did the call fail / reset (object worth re-exploring as a second representative)?
     fn is_alt_worthy(rec: &Value) -> bool {
         matches!(rec["res"].as_str(), Some("full") | Some("cleared"))
@@ -493,13 +497,20 @@ pub struct LockStep<S: Sut> {
     pub main: S,
     pub shadow: Option<S>,
     pub cfg: Value,
+    /// what the configuration getters answered right after construction
+    pub getters0: Value,
 }
 impl<S: Sut> LockStep<S> {
     pub fn new(cfg: &Value) -> Self {
-        LockStep { main: S::new(cfg), shadow: None, cfg: cfg.clone() }
+        let main = S::new(cfg);
+        let getters0 = main.config();
+        LockStep { main, shadow: None, cfg: cfg.clone(), getters0 }
     }
     pub fn apply(&mut self, op: &Value, other: Option<&S>) -> Value {
         let mut rec = self.main.apply(op, other);
+        if !self.getters0.is_null() {
+            rec["cfg_same"] = json!(self.main.config() == self.getters0);
+        }
         if rec["skip"] == true {
             if let Some(sh) = self.shadow.as_mut() {
                 let _ = sh.apply(op, other);
